@@ -1674,10 +1674,8 @@ class ShortcutNode(ListNode):
         if isinstance(p[0], ValueNode):
             last_val = p[0]
         else:
-            if isinstance(p[0], GeometryTree):
-                last_val = list(p[0])[-1]
-            else:
-                last_val = p[0].nodes[-1]
+            # the last value of the tree, shortcut or chain of shortcuts in front
+            last_val = list(p[0])[-1]
         if last_val.value is None:
             raise ValueError(f"Repeat cannot follow a jump. Given: {list(p)}")
         for i in range(repeat_num):
@@ -1695,7 +1693,7 @@ class ShortcutNode(ListNode):
         if isinstance(p[0], ValueNode):
             last_val = self.nodes[-1]
         else:
-            last_val = p[0].nodes[-1]
+            last_val = list(p[0])[-1]
         if last_val.value is None:
             raise ValueError(f"Multiply cannot follow a jump. Given: {list(p)}")
         self._nodes.append(copy.deepcopy(last_val))
@@ -1726,10 +1724,11 @@ class ShortcutNode(ListNode):
             end = p.number_phrase.value
         else:
             if isinstance(p[0], ListNode):
-                begin = p[0].nodes[-1].value
+                begin = list(p[0])[-1].value
             else:
                 begin = p[0].value
-            end = p.number_phrase.value
+            # the end of an interpolation may be zero (a null_phrase)
+            end = p[3].value
         self._nodes = self._get_last_node(p)
         if begin is None:
             raise ValueError(f"Interpolates cannot follow a jump. Given: {list(p)}")
@@ -1753,7 +1752,7 @@ class ShortcutNode(ListNode):
         self._begin = begin
         self._end = end
         self._spacing = spacing
-        self.append(p.number_phrase)
+        self.append(p[3])
 
     def _can_consume_node(self, node, direction, last_edge_shortcut=False):
         """
